@@ -7,7 +7,9 @@ use rs1090::decode::cpr::{airborne_position_with_reference, surface_position_wit
 use serde_json::json;
 
 pub fn surface_msg(yz: u32, xz: u32, odd: bool) -> SurfacePosition {
-    let me = frames::me_surface(7, 20, 1, 33, 0, odd as u8, yz, xz);
+    // type code 5-8, movement, track status and value, time bit take all their values as the counts run
+    let h = ((yz as u64) << 17 | xz as u64).wrapping_mul(0x9E37_79B9_7F4A_7C15) >> 32;
+    let me = frames::me_surface(5 + (h % 4) as u8, ((h >> 2) % 128) as u8, ((h >> 9) % 2) as u8, ((h >> 10) % 128) as u8, ((h >> 17) % 2) as u8, odd as u8, yz, xz);
     SurfacePosition::try_from(&me[..]).expect("harness: surface ME must parse")
 }
 
